@@ -57,6 +57,9 @@ int main(int argc, char** argv) {
             if (r.chance(0.05)) rate *= 30;          // occasional jump
             b.in->updateXProjection();
             b.wake->update();
+            // one case in five asks for the update a second time with the unchanged profile before the step is applied (a request is
+            // idempotent: what is applied afterwards is still the kick of the current profile)
+            if (c % 5 == 1) { b.wake->update(); if (st == 0) M.ev("cases_with_repeated_update_requests"); }
             b.map->apply();
             // reference: a fresh kick map given the wake potential of the *current* profile
             std::vector<float> w(b.field->wakePotential(), b.field->wakePotential() + (size_t)s.n * s.nb);
